@@ -218,12 +218,26 @@ def check_stream_ciphers():
         key = rb(32)
         nonce = rb(rnd.choice((8, 12, 24)))
         top = (1 << 32) if len(nonce) != 8 else (1 << 64)
-        blk = rnd.choice((0, 1, 2, rlen(0, 1000), (1 << 32) - 4, rlen(0, top - 8), top - 6))
+        # (the last block of the key stream is probed separately: known library deviation)
+        blk = rnd.choice((0, 1, 2, rlen(0, 1000), rlen(0, top - 8), top - 6,
+                          (1 << 32) - 2 if len(nonce) == 8 else 3))
         off = 64 * blk + rlen(0, 63)
         data = rb(rlen(0, 200))
-        lib = ChaCha20.new(key=key, nonce=nonce)
-        lib.seek(off)
-        ck.eq(RC.chacha20_xor(key, nonce, data, off), lib.encrypt(data), "xor", key=key, nonce=nonce, off=off)
+        def lib_xor():
+            try:
+                lib = ChaCha20.new(key=key, nonce=nonce)
+                lib.seek(off)
+                return lib.encrypt(data)
+            except ValueError as e:
+                return "key stream exhausted"
+
+        def model_xor():
+            try:
+                return RC.chacha20_xor(key, nonce, data, off)
+            except OverflowError:
+                return "key stream exhausted"
+
+        ck.eq(model_xor(), lib_xor(), "xor", key=key, nonce=nonce, off=off, blk=off // 64, n=len(data))
         if len(nonce) != 24:
             ctr = off // 64
             lib = ChaCha20.new(key=key, nonce=nonce)
@@ -578,7 +592,7 @@ def check_kw():
     for i in range(N):
         key = rb(rnd.choice((16, 24, 32)))
         c = LibECB(AES, key) if i % 5 == 0 else RC.AES(key)
-        pt = rb(8 * rlen(2, 25))
+        pt = rb(8 * rnd.choice((rlen(2, 25), rlen(2, 25), rlen(40, 64))))     # n > 42 makes t exceed 255
         w = AES.new(key, AES.MODE_KW).seal(pt)
         ck.eq(RM.kw_wrap(c, pt), w, "wrap", key=key, pt=pt)
         ck.eq(RM.kw_unwrap(c, w), AES.new(key, AES.MODE_KW).unseal(w), "unwrap", key=key)
@@ -755,6 +769,85 @@ def check_wycheproof():
 
 
 # ---------------------------------------------------------------------------
+# probes for spec-vs-library deviations that were analysed by hand; they are
+# reported in their own table and do not count as model mismatches
+# ---------------------------------------------------------------------------
+
+DEVIATIONS = []       # (title, observed?, text)
+
+
+def probe_subprocess(code, timeout=8):
+    import subprocess
+    try:
+        p = subprocess.run([sys.executable, "-c", code], capture_output=True, text=True, timeout=timeout)
+        return (p.stdout + p.stderr).strip()
+    except subprocess.TimeoutExpired:
+        return "TIMEOUT after %d s (process killed)" % timeout
+
+
+def check_deviations():
+    # D1: the last block of the ChaCha20 key stream cannot be produced
+    obs = []
+    for nlen, top in ((12, 1 << 32), (8, 1 << 64), (24, 1 << 32)):
+        key, nonce = rb(32), rb(nlen)
+        want = RC.chacha20_xor(key, nonce, bytes(64), 64 * (top - 1))
+        try:
+            c = ChaCha20.new(key=key, nonce=nonce)
+            c.seek(64 * (top - 1))
+            got = c.encrypt(bytes(64))
+        except ValueError as e:
+            got = "ValueError: %s" % e
+        obs.append(got != want)
+    DEVIATIONS.append((
+        "ChaCha20/XChaCha20: final key-stream block unusable", all(obs),
+        "RFC 8439 / Bernstein: block counters 0..2^32-1 (2^64-1 for the 64-bit nonce) are all valid, "
+        "the key stream is 2^38 (2^70) bytes.  Library: seek(64*(2**32-1)) or encrypting into that "
+        "block raises 'ValueError: Error 10' (chacha20_core() reports ERR_MAX_DATA when the counter "
+        "increment AFTER producing the last block wraps), so the usable stream is one block short.  "
+        "Repro: ChaCha20.new(key=bytes(32), nonce=bytes(12)).seek(64*(2**32-1))"))
+
+    # D2: documented zero-length EKSBlowfish key hangs
+    out = probe_subprocess(
+        "from Crypto.Cipher import _EKSBlowfish as E\n"
+        "print(E.new(b'', E.MODE_ECB, bytes(16), 0, True).encrypt(bytes(8)).hex())")
+    want = RC.EksBlowfish(b"", bytes(16), 0, True).encrypt_block(bytes(8)).hex()
+    DEVIATIONS.append((
+        "_EKSBlowfish: zero-length key (documented as legal) never returns", out != want,
+        "Crypto.Cipher._EKSBlowfish documents key length 0..72 (key_size = range(0, 73)); with len(key)==0 "
+        "xorP() in src/blowfish.c loops forever (tc = MIN(0, ...) never advances P_idx).  "
+        "Repro: _EKSBlowfish.new(b'', _EKSBlowfish.MODE_ECB, bytes(16), 0, True) -> observed: %s ; "
+        "model (XOR of an empty key = no-op) gives %s.  bcrypt() itself always appends a NUL, so only the "
+        "private module is affected." % (out, want)))
+
+    # D3: Counter.new docstring vs implementation
+    ctr = Counter.new(8, prefix=bytes(15), initial_value=255)
+    try:
+        AES.new(bytes(16), AES.MODE_CTR, counter=ctr).encrypt(bytes(32))
+        wrapped_silently = True
+    except OverflowError:
+        wrapped_silently = False
+    DEVIATIONS.append((
+        "Counter.new docstring: 'OverflowError is always raised when the counter wraps around to zero'",
+        wrapped_silently,
+        "Implementation (src/raw_ctr.c) lets the counter field pass through zero and raises OverflowError "
+        "only once more than 2**(8*counter_len) blocks were consumed (a counter block would repeat).  "
+        "The model follows the implementation (documentation-only discrepancy).  "
+        "Repro: AES.new(bytes(16), AES.MODE_CTR, counter=Counter.new(8, prefix=bytes(15), "
+        "initial_value=255)).encrypt(bytes(32)) succeeds."))
+
+    # D4: S2V with zero components
+    s = _S2V.new(bytes(16), AES)
+    got = s.derive()
+    want = RM.s2v(RC.AES(bytes(16)), [])
+    DEVIATIONS.append((
+        "_S2V with zero components", got != want,
+        "RFC 5297 sec 2.4: S2V with n = 0 returns CMAC(K, <one>) = %s; Crypto.Protocol.KDF._S2V.derive() "
+        "without any update() returns %s (equal to CMAC(K, 0^128): %s).  Private class; "
+        "MODE_SIV always supplies the plaintext as final component, so it is not reachable through AES.new()."
+        % (want.hex(), got.hex(), got == RM.cmac(RC.AES(bytes(16)), bytes(16)))))
+
+
+# ---------------------------------------------------------------------------
 
 def main():
     t0 = time.time()
@@ -763,7 +856,7 @@ def main():
     print("self tests OK (%.2f s); %d random cases per check, seed %d" % (time.time() - t0, N, SEED))
     for fn in (check_block_ciphers, check_eksblowfish, check_stream_ciphers, check_classic_modes,
                check_ctr, check_cmac, check_poly1305, check_gcm, check_ccm, check_eax, check_siv,
-               check_ocb, check_chacha20_poly1305, check_kw, check_wycheproof):
+               check_ocb, check_chacha20_poly1305, check_kw, check_wycheproof, check_deviations):
         dt = run(fn)
         print("  %-28s %.1f s" % (fn.__name__, dt))
     print()
@@ -776,6 +869,9 @@ def main():
         bad += mism
     print("-" * 72)
     print("%-52s %8d %10d" % ("TOTAL", total, bad))
+    print("\nANALYSED LIBRARY DEVIATIONS / API NOTES (not counted above)")
+    for title, observed, text in DEVIATIONS:
+        print(" [%s] %s\n      %s" % ("observed" if observed else "NOT observed (fixed?)", title, text))
     if DETAILS:
         print("\nMISMATCH DETAILS")
         for d in DETAILS:
